@@ -16,6 +16,7 @@ NOTE = ("Trusted: bitarray C extension (replaced by a model that is differential
 
 # property -> (technique, design section, extra note) ; None = not yet claimed
 CLAIMED = {
+    'C11': ("direct z3 queries: every lookup table as an If-tree vs the format definition over the whole index domain; CrossHair path obligations on the real encoders/decoders with the table opaque", "DESIGN.md 5/C11", ""),
     'C12': ("symbolic execution (CrossHair/z3) of every position-taking operation under lsb0 against the absolute msb0 oracle on reversed operands", "DESIGN.md 5/C12", ""),
     'C05': ("symbolic execution (CrossHair/z3) of pack/unpack/token strings over a format catalogue with symbolic values, keyword lengths and stretchy contents", "DESIGN.md 5/C05", ""),
     'C10': ("symbolic execution (CrossHair/z3): encoders per bit-length class against the standards' codeword shape, decoder totality over all bit strings", "DESIGN.md 5/C10", ""),
